@@ -72,8 +72,9 @@ fn variants(p: &Node, rng: &mut Rng, all_sites: bool) -> Vec<Variant> {
     push("free-spacing", format!("(?x){}", join_with(&toks, &mut |_| " ")), &base);
     push("free-spacing", format!("(?x)\n{}\n", join_with(&toks, &mut |_| "\n")), &base);
     push("free-spacing", format!("(?x) {} # trailing", join_with(&toks, &mut |_| " # c\n ")), &base);
+    push("free-spacing", format!("(?x) {} # 名 trailing 😀", join_with(&toks, &mut |_| " # 注释 é\n ")), &base);
     for _ in 0..2 {
-        let seps = [" ", "", "\n", "\t ", " # x ( [ \\ \n", "\r\n"];
+        let seps = [" ", "", "\n", "\t ", " # x ( [ \\ \n", "\r\n", " #名é😀 (\n", "#é\n"];
         let mut r2 = rng.fork();
         push("free-spacing", format!("(?x){}", join_with(&toks, &mut |_| seps[r2.below(seps.len() as u64) as usize])), &base);
     }
@@ -323,14 +324,25 @@ pub fn run(ctx: &Ctx) -> Outcome {
             // the same pair inside a case-insensitive scope (flags are parser state that every
             // spelling of a literal has to honour)
             if !v.pattern.starts_with("(?x)") {
-                let (bi, vi) = (tree_of(&format!("(?i:{})", base)), tree_of(&format!("(?i:{})", v.pattern)));
-                if bi != vi {
-                    let mut viol = Violation::new("C19", "tree-equality", &format!("(?i:{})", v.pattern), "", 0, "Expr::parse_tree", format!("the tree of {:?}: {}", format!("(?i:{})", base), bi.show()), vi.show());
-                    viol.note = format!("respelling family: {} inside (?i:..)", v.family);
-                    acc.violate(viol);
+                let mut differs = false;
+                for fl in ["i", "U", "s"] {
+                    // (the swap-greed family spells X? as (?U:X??): it is itself relative to U)
+                    if fl == "U" && v.family == "swap-greed" {
+                        continue;
+                    }
+                    let (bi, vi) = (tree_of(&format!("(?{}:{})", fl, base)), tree_of(&format!("(?{}:{})", fl, v.pattern)));
+                    if bi != vi {
+                        let mut viol = Violation::new("C19", "tree-equality", &format!("(?{}:{})", fl, v.pattern), "", 0, "Expr::parse_tree", format!("the tree of {:?}: {}", format!("(?{}:{})", fl, base), bi.show()), vi.show());
+                        viol.note = format!("respelling family: {} inside (?{}:..)", v.family, fl);
+                        acc.violate(viol);
+                        differs = true;
+                        break;
+                    }
+                }
+                if differs {
                     continue;
                 }
-                acc.count("pairs-also-compared-inside-(?i:..)");
+                acc.count("pairs-also-compared-inside-(?i:..)-(?U:..)-(?s:..)");
             }
             // behaviour
             let Some(base_res) = &base_res else { continue };
